@@ -26,7 +26,7 @@
 (* - the orders reachable by renaming modules / reordering the command     *)
 (* line.                                                                   *)
 (***************************************************************************)
-EXTENDS Registry, Json, IOUtils, SequencesExt
+EXTENDS PyBind, Json, IOUtils, SequencesExt
 
 CONSTANTS Source              \* "file": projects from IOEnv.PROJECT_FILE
 Projects == JsonDeserialize(IOEnv.PROJECT_FILE)
@@ -258,4 +258,25 @@ AliasDump == [o \in 1..Len(st.objs) |-> [n |-> NameOf(o), a |-> LET ns == SetToS
 EmitDone == Done => PrintT(ToJson([pid |-> pid, sched |-> sched, phase |-> phase, keys |-> Dump, alias |-> AliasDump,
                                    log |-> log, failed |-> SetToSeq(FailedRegistryInvs(st)),
                                    mstate |-> mstate]))
+
+\* ------------------------------------------------------------------ C04 : names resolve to what Python binds, or not at all
+PB == PyBindAll(Prj)
+SiteObjs(i, pc) == {o \in 1..Len(st.objs) : st.objs[o].site = [m |-> i, pc |-> pc] /\ Registered(st, o)}
+ObjAt(i, pc) == LET c == SiteObjs(i, pc) IN IF c = {} THEN NoObj ELSE CHOOSE o \in c : \A o2 \in c : st.objs[o].name.d <= st.objs[o2].name.d
+SiteOfObj(o) == IF o = NoObj THEN <<>> ELSE <<st.objs[o].site.m, st.objs[o].site.pc>>
+Row(key, parts, v) == [scope |-> key, name |-> parts, py |-> <<v.i, v.pc>>,
+                       res |-> IF ObjAt(key[1], key[2]) = NoObj THEN <<>>
+                               ELSE SiteOfObj(ResolveName(st, ObjAt(key[1], key[2]), parts, BO))]
+NameRows == UNION {
+   {Row(key, <<n>>, PB.ns[key][n]) : n \in DOMAIN PB.ns[key]}
+   \cup UNION {{Row(key, <<n, a>>, PB.ns[ModKey(PB.ns[key][n].i)][a]) : a \in DOMAIN NsOf(PB, ModKey(PB.ns[key][n].i))}
+               : n \in {x \in DOMAIN PB.ns[key] : PB.ns[key][x].t = "mod"}}
+   \cup UNION {UNION {{Row(key, <<n, a, b>>, PB.ns[ModKey(PB.ns[ModKey(PB.ns[key][n].i)][a].i)][b])
+                         : b \in DOMAIN NsOf(PB, ModKey(PB.ns[ModKey(PB.ns[key][n].i)][a].i))}
+                      : a \in {y \in DOMAIN NsOf(PB, ModKey(PB.ns[key][n].i)) : PB.ns[ModKey(PB.ns[key][n].i)][y].t = "mod"}}
+               : n \in {x \in DOMAIN PB.ns[key] : PB.ns[key][x].t = "mod"}}
+   : key \in DOMAIN PB.ns}
+\* never a different object
+ResolvesRightOrNot == phase = "done" => \A r \in NameRows : r.res = <<>> \/ r.res = r.py
+EmitNames == phase = "done" => PrintT(ToJson([pid |-> pid, sched |-> sched, rows |-> SetToSeq(NameRows)]))
 =============================================================================
